@@ -763,6 +763,15 @@ func (vc *VC) callFunc2(fr *Frame, st *State, x *ssa.Call, callee *ssa.Function,
 		vc.assumed[fnDisplayName(callee)] = true
 		return h(vc, fr, st, x, args)
 	}
+	// an external function with a known effect summary but no value contract:
+	// its effects are applied, its result is arbitrary
+	if sm := stdlibEffects(callee); sm != nil {
+		vc.assumed[fnDisplayName(callee)+" (effect summary only; arbitrary result)"] = true
+		ms := newModSet()
+		sm(vc, x, ms)
+		vc.havoc(fr, st, ms, "ext-effects")
+		return vc.havocVal(rt, "ext")
+	}
 	vc.uncontr["ext:"+fnDisplayName(callee)] = true
 	ms := newModSet()
 	seen := map[string]bool{}
